@@ -36,8 +36,9 @@ Definition ebind_eqb (a b : ebind) : bool :=
 
 Definition event_eqb (a b : event) : bool :=
   match a, b with
-  | EvUd i, EvUd j | EvWIn i, EvWIn j | EvWOut i, EvWOut j | EvCli i, EvCli j | EvReq i, EvReq j => Nat.eqb i j
-  | EvSend, EvSend | EvCond, EvCond | EvHook, EvHook => true
+  | EvUd i, EvUd j | EvWIn i, EvWIn j | EvWOut i, EvWOut j | EvCli i, EvCli j | EvReq i, EvReq j
+  | EvCond i, EvCond j | EvHook i, EvHook j => Nat.eqb i j
+  | EvSend, EvSend => true
   | _, _ => false
   end.
 
